@@ -2,7 +2,7 @@
 import re
 
 from facts import AnchorMissing, op_int, op_place, short, term_callee
-from decoder import (CTX_FLAGS, CTX_TYPES, STYLE_MARKERS, Decoder, fn_short, last_field)
+from decoder import (CTX_FLAGS, CTX_TYPES, READS as READS_RX, STYLE_MARKERS, VISITS as VISITS_RX, Decoder, fn_short, last_field)
 from pathflow import simple_local
 
 _cache = {}
@@ -455,6 +455,74 @@ def rule_visitor_table(chk, facts):
                    f"without decoding skips the per-element checks of the value, e.g. bool cells being 0 or 1)",
                    ok_detail=f"calls {sorted(got)}")
     chk.floor("decoder routines that call the visitor", n, 30)
+
+
+def rule_mismatch_is_subtype_error(chk, facts):
+    """a value whose wire type does not fit the expected type is reported with Error::Subtype — the one error kind the `opt` rule recovers
+    from (`opt t` reads as null when the value does not coerce).  A mismatch reported as a plain message makes `Option<T>` fail where the
+    untyped decoder returns null."""
+    D = get_decoder(facts)
+    n = 0
+    seen = set()
+    for k, eb, s in D.sites("typetest"):
+        if (k, s.block) in seen:
+            continue
+        seen.add((k, s.block))
+        b = D.bodies[k]
+        t = s.term
+        targets = list(t.get("ts") or []) + ([t["o"]] if t.get("o") is not None else [])
+        n += 1
+        plain = []
+        for tgt in targets:
+            cur, steps = tgt, 0
+            consts = {}
+            kind = None
+            while cur is not None and steps < 24 and kind is None:
+                blk = b.blocks[cur]
+                steps += 1
+                for st in blk["s"]:
+                    if st["k"] == "assign" and st["r"].get("k") == "agg" and st["r"].get("variant") in ("Subtype", "Custom"):
+                        kind = kind or st["r"]["variant"]
+                    if st["k"] == "assign" and not st["p"].get("p"):
+                        v = op_int(st["r"]["o"]) if st["r"].get("k") == "use" else None
+                        if v is not None:
+                            consts[st["p"]["l"]] = v
+                        else:
+                            consts.pop(st["p"]["l"], None)
+                tt = blk["t"]
+                if tt["k"] == "switch":
+                    dpl = op_place(tt["d"])
+                    if dpl is not None and not dpl.get("p") and dpl["l"] in consts:
+                        v = consts[dpl["l"]]
+                        cur = tt["ts"][tt["vals"].index(v)] if v in tt["vals"] else tt.get("o")
+                        continue
+                    break
+                if tt["k"] == "call":
+                    d, r = term_callee(tt)
+                    nm = r or d or ""
+                    if re.search(r"error::Error::subtype$", nm):
+                        kind = "Subtype"
+                    elif re.search(r"error::Error::msg$", nm):
+                        # de.rs's own assert! (an internal-consistency test on the *expected* type, "please file a bug") is not a mismatch report
+                        kind = "internal" if any("assert" in str(m_) for m_ in (tt.get("mac") or [])) else "msg"
+                    elif re.search(r"(READ|VISIT)", "") or READS_RX.search(nm) or VISITS_RX.search(nm) or nm.endswith("add_cost"):
+                        break          # the branch goes on decoding: not a rejection chain
+                    cur = tt.get("t")
+                elif tt["k"] in ("goto", "drop", "assert"):
+                    cur = tt.get("t")
+                else:
+                    break
+            if kind == "msg":
+                plain.append(tgt)
+        if fn_short(k).endswith("deserialize_empty"):
+            chk.assume("deserialize_empty: a wire value of type `empty` is reported with Error::msg on purpose — no value of that type exists, so "
+                       "the message is malformed and must fail even below an opt")
+            continue
+        chk.expect(not plain, f"{fn_short(k)}:mismatch-is-subtype-error@{s.ln and 'L'}{len([x for x in seen if x[0] == k])}",
+                   f"{fn_short(k)} line {s.ln}: a branch taken right after a test of the expected / wire type builds its error with Error::msg: "
+                   f"a type mismatch must be an Error::Subtype (check! / Error::subtype), the kind that `opt` recovery turns into null",
+                   where=f"rust/candid/src/de.rs:{s.ln}", ok_detail="mismatch branches use Error::Subtype")
+    chk.floor("type tests in the decoder inspected for their rejection kind", n, 40)
 
 
 def rule_raw_field_tests(chk, facts):
